@@ -349,7 +349,12 @@ StepFn(m) == IF m.cors[m.cur].mode = "eval" THEN StepEval(m) ELSE StepRet(m)
 
 -----------------------------------------------------------------------------
 (* Error report: for the failing coroutine and each ancestor, active calls innermost first *)
-Rendered(v) == LET r == Render(v) IN IF IsErr(r) THEN <<"?">> ELSE Abbrev(r.val)
+\* a value whose text the specification does not determine (an opaque float, a float outside the plain-decimal range) renders
+\* to a marker that no real rendering equals (renderings are sequences of single characters); comparisons of report texts
+\* that contain it are not made
+UnkText == <<"<unspecified text>">>
+HasUnk(as) == \E k \in 1..Len(as) : as[k] = UnkText
+Rendered(v) == LET r == Render(v) IN IF IsErr(r) THEN UnkText ELSE Abbrev(r.val)
 CallsOf(m, c) ==
   LET idx == {i \in 1..Len(c.k) : c.k[i].t = "fnb"}
       RECURSIVE Down(_)
@@ -402,6 +407,7 @@ OpFamily(op) ==
     [] OTHER -> {op}
 IsTmpOp(name) == Len(name) > 3 /\ SubSeq(name, Len(name) - 2, Len(name)) = "TMP"
 ArgsOK(sargs, rop, rtext) ==       \* printed operand values: all of them, in order; TMP forms print a suffix, INC its variable
+  \/ HasUnk(sargs)
   \/ JoinArgs(sargs) = rtext
   \/ rop \in {"ADDTMP", "SUBTMP", "MULTMP", "DIVTMP", "MODTMP", "ANDTMP", "ORTMP", "LSHTMP", "RSHTMP", "LTTMP", "GTTMP", "LETMP", "GETMP", "EQTMP", "NETMP",
                "NOTTMP", "FLIPTMP", "LENTMP"}
@@ -412,7 +418,7 @@ JoinFrameArgsFrom(as, i) ==
   IF i > Len(as) THEN <<>>
   ELSE (IF i > 1 THEN <<" ">> ELSE <<>>) \o <<"a", "r", "g", "[">> \o NatStr(i - 1) \o <<"]", ":", " ">> \o as[i] \o JoinFrameArgsFrom(as, i + 1)
 JoinFrameArgs(as) == JoinFrameArgsFrom(as, 1)
-FramesOK(sf, rf) == Len(sf) = Len(rf) /\ \A i \in 1..Len(sf) : sf[i].name = rf[i].name /\ JoinFrameArgs(sf[i].args) = rf[i].args
+FramesOK(sf, rf) == Len(sf) = Len(rf) /\ \A i \in 1..Len(sf) : sf[i].name = rf[i].name /\ (HasUnk(sf[i].args) \/ JoinFrameArgs(sf[i].args) = rf[i].args)
 Operators == {"+", "-", "*", "/", "%", "&", "&&", "|", "||", "<<", ">>", "<", ">", "<=", ">=", "==", "!=", "#", "!", "~"}
 \* moving an operand into the temp register is an internal step of every operator; it fails (nil error) on a nil operand
 TempMoveOfNil(s, r) == s.op \in Operators /\ r.op = "MOV" /\ r.args = <<"n", "i", "l">> /\ \E k \in 1..Len(s.args) : s.args[k] = <<"n", "i", "l">>
